@@ -27,6 +27,9 @@ var c01PKKinds = []string{"int", "autoinc", "composite", "varchar", "composite3"
 func c01GenCase(r *vc.Rand, idx int, kinds []string, prefix string) *atCase {
 	c := &atCase{Name: fmt.Sprintf("%s%04d", prefix, idx), Feat: map[string]string{}}
 	pk := c01PKKinds[r.Intn(len(c01PKKinds))]
+	if r.Intn(4) == 0 {
+		pk += "+uq" // plus a secondary unique index
+	}
 	nullable := r.Bool()
 	t := atGenTable(r, fmt.Sprintf("%s%04dt", prefix, idx), pk, kinds, 2+r.Intn(3), 3+r.Intn(4), nullable)
 	c.Tables = []*atTable{t}
